@@ -163,8 +163,21 @@ func VerifC19History() {
 	vAssert(len(got) == 1, "requests-exactly-wanted-and-advertised")
 	held := map[string]bool{}
 	K := vParam("K", 2)
-	for e := 0; e < K; e++ {
+	authAt := 0 // the server asks for authentication data: never / right after LS / after the last reply
+	if withSasl && vParam("AUTH", 0) == 1 {
+		authAt = vLen("authat", 1, 2)
+	}
+	for e := 0; e <= K; e++ {
 		es := string([]byte{byte('0' + e)})
+		if withSasl && ((e == 0 && authAt == 1) || (e == K && authAt == 2)) {
+			// the server asks for authentication data although it never acknowledged sasl:
+			// nothing may be sent (SASL data only after sasl was acknowledged and asked for)
+			got = vFeed(conn, "AUTHENTICATE +")
+			vAssert(len(got) == 0, "no-sasl-data-without-acknowledged-sasl")
+		}
+		if e == K {
+			break
+		}
 		nak := vLen("nak"+es, 0, 1) == 1
 		var names []string
 		for i, c := range uni {
@@ -241,6 +254,73 @@ func VerifC19Split() {
 		for i := range names {
 			vAssert(all[i] == names[i], "split-names-intact-in-order")
 		}
+	}
+	vReach("end")
+}
+
+
+// VerifC19Reconnect: several connections in a row on one client, each through the real
+// Connect (stub dialler), recv, runLoop, send. On every connection the negotiation is
+// started once and ended once, whatever the previous connection went through (welcome
+// included): only the server end of each wire is looked at.
+func VerifC19Reconnect() {
+	c1 := vGenCap("cap1")
+	cfg := NewConfig("me")
+	cfg.EnableCapabilityNegotiation = true
+	cfg.Capabilites = []string{c1}
+	cfg.Server, cfg.Proxy, cfg.PingFreq, cfg.Flood = "srv:1", "vtest://p", 0, true
+	withSasl := vLen("sasl", 0, 1) == 1
+	if withSasl {
+		cfg.Sasl = sasl.NewPlainClient("", "u", "p")
+	}
+	rounds := vParam("R", 2)
+	d := &vDialer{}
+	for r := 0; r < rounds; r++ {
+		rs := string([]byte{byte('0' + r)})
+		hi := 2
+		if withSasl {
+			hi = 3
+		}
+		var lines []string
+		switch vLen("reply"+rs, 0, hi) {
+		case 0:
+			lines = []string{":srv CAP * LS :" + c1, ":srv CAP me ACK :" + c1}
+		case 1:
+			lines = []string{":srv CAP * LS :" + c1, ":srv CAP me NAK :" + c1}
+		case 2:
+			lines = []string{":srv CAP * LS :unwanted-thing"}
+		case 3:
+			lines = []string{":srv CAP * LS :" + c1 + " sasl", ":srv CAP me ACK :" + c1 + " sasl", "AUTHENTICATE +", ":srv 903 me :SASL authentication successful"}
+		}
+		lines = append(lines, ":srv 001 me :Welcome", ":srv 005 me X=Y :are supported")
+		stream := ""
+		for _, l := range lines {
+			stream += l + "\r\n"
+		}
+		d.wires = append(d.wires, vNewLiveWire(stream))
+	}
+	vInstallDialer(d)
+	conn := Client(cfg)
+	if vLen("track", 0, 1) == 1 {
+		conn.EnableStateTracking()
+	}
+	for r := 0; r < rounds; r++ {
+		err := conn.Connect()
+		vAssume(err == nil)
+		vRunPending()
+		ls, end := 0, 0
+		for _, x := range d.wires[r].written {
+			if x == "CAP LS\r\n" {
+				ls++
+			}
+			if x == "CAP END\r\n" {
+				end++
+			}
+		}
+		vAssert(ls == 1, "reconnect:negotiation-started-once-per-connection")
+		vAssert(end == 1, "reconnect:negotiation-ended-once-per-connection")
+		conn.Close()
+		vRunPending()
 	}
 	vReach("end")
 }
